@@ -223,12 +223,12 @@ func checkC14(c *Ctx) {
 				cs.Violation("cache-modified", map[string]string{"op": sig[len(sig)-1]}, fmt.Sprintf("the cached Specs/devices changed after %s:\n%s", desc, firstDiff(image0, img)), wit())
 				return
 			}
-			if normJSON(a) != normJSON(b) {
+			if exactJSON(a) != exactJSON(b) {
 				cs.Violation("not-repeatable", nil, fmt.Sprintf("%s on equal OCI specs gives different results", desc), wit())
 				return
 			}
-			if normJSON(a) != normJSON(want) {
-				cs.Violation("stale-host-info", nil, fmt.Sprintf("%s differs from applying the pristine edits against the current host nodes\n got  %s\n want %s", desc, normJSON(a), normJSON(want)), wit())
+			if exactJSON(a) != exactJSON(want) {
+				cs.Violation("stale-host-info", nil, fmt.Sprintf("%s differs from applying the pristine edits against the current host nodes\n got  %s\n want %s", desc, exactJSON(a), exactJSON(want)), wit())
 				return
 			}
 		}
